@@ -176,7 +176,103 @@ class SchedSpec(Spec):
         return doc
 
 
+class OpsSpec(Spec):
+    """Shared by engines whose replay file is (cfg, ops)."""
+
+    engine_mod = None
+    run_cls = None
+
+    def _mod(self):
+        import importlib
+
+        return importlib.import_module("xsim.engines." + self.engine_mod)
+
+    def mk(self, cfg, ops, tag):
+        return getattr(self._mod(), self.run_cls)(cfg, ops=ops, tag=tag)
+
+    def run(self, prop, seed, tier, tag):
+        from . import world
+
+        world.install_seams()
+        cfg = self._mod().make_config(seed, tier)
+        return self.mk(cfg, None, tag).run()
+
+    def replay(self, doc, tag):
+        from . import world
+
+        world.install_seams()
+        return self.mk(doc["cfg"], doc["ops"], tag).run()
+
+    def sample(self, res):
+        s = res.get("samples") or []
+        return s[0] if s else None
+
+    def collect(self, agg, res):
+        pass
+
+    def replay_doc(self, prop, v, res):
+        return {"engine": self.engine_mod, "prop": prop, "seed": v.get("seed"), "cfg": res["cfg"], "ops": res["ops"],
+                "expect": {"oracle": v["oracle"], "sig": v["sig"]}, "detail": v.get("detail"), "digest": res.get("digest"), "minimised": True}
+
+    def minimise(self, prop, v, res, farm):
+        want = (v["oracle"], json.dumps(v["sig"], sort_keys=True))
+        cfg = res["cfg"]
+        last = {}
+
+        def test_many(cands):
+            docs = [{"prop": prop, "cfg": cfg, "ops": c} for c in cands]
+            outs = {}
+            farm.map(self.replay, [(d, "min-%s-%d" % (prop, i)) for i, d in enumerate(docs)], on_result=lambda i, a, o: outs.__setitem__(i, o))
+            ret = []
+            for i in range(len(docs)):
+                o = outs.get(i, {})
+                ok = False
+                if o.get("ok"):
+                    for x in o["result"].get("violations", []):
+                        if (x["oracle"], json.dumps(x["sig"], sort_keys=True)) == want:
+                            ok = True
+                            last["r"] = (o["result"], x)
+                ret.append(ok)
+            return ret
+
+        ops = ddmin(list(res["ops"]), test_many)
+        if not test_many([ops])[0]:
+            return None
+        r, x = last["r"]
+        doc = self.replay_doc(prop, dict(v, detail=x["detail"]), {"cfg": cfg, "ops": ops, "digest": r.get("digest")})
+        doc["original_ops"] = len(res["ops"])
+        return doc
+
+
+class IndexSpec(OpsSpec):
+    engine = "E-INDEX"
+    engine_mod = "index"
+    run_cls = "IndexRun"
+    level = "exploration"
+    quick_budget = 45
+    thorough_budget = 480
+    rule = ("seeded calendars (3-10 objects incl. several components of one type, objects lacking the filtered property, unparseable stored .ics files), "
+            "a pool of 3-6 filters (comp / prop presence / is-not-defined / text-match / comp and prop time-range) repeated and interleaved past the "
+            "index threshold (threshold in 0,1,2,5,50; paranoid mode in a quarter of the runs), writes, deletes, restarts and store-cache evictions in between; "
+            "every REPORT is answered by the server and by a cold twin backend (threshold 10^9) on the same directory. Non-trivial: queries answered from the "
+            "index after at least one write since the index was (re)built; counted per query")
+    assumptions = ("the cold twin runs the same naive filter code: this check decides history-independence, not RFC conformance of the filters (C11)",
+                   "sampling of histories and filters")
+
+    def nontrivial_keys(self, res):
+        return ["%s:%d" % (res.get("digest", "")[:12], i) for i in range(res.get("nontrivial", 0))]
+
+    def essential(self, agg):
+        if agg.stats.get("probe.index_path_taken", 0) < 5:
+            return "the index path was taken fewer than 5 times"
+        if agg.stats.get("probe.index_reset", 0) < 2:
+            return "the index was never reset/extended"
+        return None
+
+
 def spec_for(prop):
+    if prop == "C10":
+        return IndexSpec()
     if prop == "C04":
         return CrashSpec()
     if prop == "C05":
